@@ -327,11 +327,23 @@ func layoutSpace(tier string) kit.Space {
 			case "if-line", "end-line", "start of the macro-body":
 				after = "a statement-only line"
 			}
+			for _, a := range cur.lines {
+				if n := lineAtoms[a].name; n == "if-line" || n == "end-line" {
+					after = "a statement-only line"
+				}
+			}
 			lc := cr.lexerCtx
 			if strings.Contains(lc, "code block") {
 				lc = "code block"
 			}
 			o.Key = fmt.Sprintf("layout hole=[%s] after=[%s] in=%s lexer-context=%q commonmark=%s", pk, after, where, lc, cr.class)
+			if after == "a statement-only line" {
+				o.Key = fmt.Sprintf("layout hole=[indented] after=[a statement-only line, which is cut from the output] lexer-context=%q commonmark=%s", lc, cr.class)
+			} else if cur.macro && strings.Contains(pk, "inline {% end %}") {
+				// inside a macro the lexer saves the context at {% if %} and restores
+				// it at {% end %}, whatever line the {% end %} stands on
+				o.Key = fmt.Sprintf("layout in=macro-body hole follows an inline {%% end %%} whose {%% if %%} stands on another kind of line lexer-context=%q commonmark=%s", lc, cr.class)
+			}
 			o.Detail = fmt.Sprintf("minimal layout (effect %s):\n%s\n\nthis case: template %q (effect %s)", cr.effect, cr.detail, l.source(), r.effect)
 			return o
 		},
@@ -734,9 +746,13 @@ func mdMacroSpace(tier string) kit.Space {
 				}
 				return "", out
 			}
+			if hasBlankLine(v) {
+				o.Class = "md-macro:blank-line(see the string spaces)"
+				return o
+			}
 			e, out := eff(v)
 			if e != "" {
-				core := minimise(v, func(w string) bool { x, _ := eff(w); return x == e })
+				core := minimise(v, func(w string) bool { x, _ := eff(w); return x == e && !hasBlankLine(w) })
 				o.OK = false
 				o.Class = "md-macro:" + e
 				o.Key = fmt.Sprintf("ctx=markdown-macro-in-html(show %s) value-not-neutralised", bodies[i%ns].name)
